@@ -172,6 +172,14 @@ func runC01(c *Ctx) {
 	for i := 0; i < c.Pick(2500, 60000); i++ {
 		docs = append(docs, wdoc{g.next(), "mutated"})
 	}
+	// every sequence of up to 6 (thorough: 7) block-structure tokens: containers whose last
+	// leaf is still open when a sibling opener arrives, fences inside fences, ...
+	shortStrings([]string{">", "- ", "```", "\n", "a", "  "}, c.Pick(6, 7), func(s string) { docs = append(docs, wdoc{s, "tokens"}) })
+	shortStrings([]string{"1. ", "~~~", "\n", "<!--", "    ", "[a]: /u", "|-"}, c.Pick(5, 6), func(s string) { docs = append(docs, wdoc{s, "tokens"}) })
+	// what the generator modules of the specification enumerate
+	for _, d := range generatedDocs(c, c.Pick(12000, 200000)) {
+		docs = append(docs, wdoc{d, "generated"})
+	}
 	ev.Set("documents", len(docs))
 	ev.Set("slot_documents", nSlot)
 	ev.Set("configurations", len(cfgs))
@@ -214,6 +222,11 @@ func runC01(c *Ctx) {
 				step := 1
 				if docs[i].kind == "deep" && len(src) > 20000 {
 					step = 8 // very long inputs: every 8th configuration (rotating)
+				}
+				if docs[i].kind == "tokens" {
+					step = 8
+				} else if docs[i].kind == "generated" {
+					step = 4
 				}
 				for ci := i % step; ci < len(cfgs); ci += step {
 					api := "convert"
